@@ -185,8 +185,11 @@ def _channel(draw, max_mem, mem_classes):
     if len(delays) == 1:
         powers = [0.0]
     else:
-        powers = [draw(st.one_of(fl(-30.0, 0.0),
-                                 st.sampled_from([0.0, -3.0, -30.0])))
+        # (also very weak taps: 60 .. 120 dB below the strongest one)
+        powers = [draw(st.one_of(fl(-30.0, 0.0), fl(-30.0, 0.0),
+                                 st.sampled_from([0.0, -3.0, -30.0]),
+                                 fl(-120.0, -60.0),
+                                 st.sampled_from([-60.0, -80.0])))
                   for _ in delays]
     tcls = draw(st.sampled_from(["unit", "unit", "scaled", "offgrid",
                                  "offgrid"]))
